@@ -177,7 +177,8 @@ def main():
     allp = [(f, pt) for f in files for pt in points(os.path.join(REPO, f))]
     rnd = random.Random(seed)
     rnd.shuffle(allp)
-    sample = allp[:n]
+    skip = int(os.environ.get("MS_SKIP", "0"))  # continue a previous run of the same seed / file list
+    sample = allp[skip : skip + n]
     base = json.load(open("/root/.vp/BASELINE.json"))
     stable = set(base["stable_pass"])
     wt = tempfile.mkdtemp(prefix="vf_ms_", dir="/tmp")
@@ -187,7 +188,7 @@ def main():
     log = os.path.join(HERE, "seeded", "MUTSCAN.tsv")
     try:
         for k, (f, pt) in enumerate(sample):
-            mid = f"ms{seed}_{k}"
+            mid = f"ms{seed}_{k + skip}"
             path = os.path.join(wt, f)
             subprocess.check_call(["git", "-C", wt, "checkout", "-q", "--", "."])
             apply(path, pt)
